@@ -11,9 +11,11 @@ R01a  lexer totality per dialect.  Let L be the last-resort matcher, read from t
       the one-character string c is in its language and the matcher can never return
       an empty match for an input starting with c (non-nullable, or greedy ``X*``).
       ``StringLexer`` templates consume their single character.  Patterns the stdlib
-      parser cannot read are *unknown*, patterns with look-around/anchors/back-references
-      are *inexact*; they discharge nothing and never alarm: if c is uncovered while an
-      unknown pattern exists or an inexact pattern can start with c -> ANALYSIS-ERROR.
+      parser cannot read are *unknown* (``\\p{L}`` / ``(?R)`` are re-read in an over-
+      approximated form that only yields a first-character superset), patterns with
+      look-around/anchors/back-references are *inexact*; they discharge nothing and
+      never alarm: if c is uncovered while an unknown pattern exists or an inexact /
+      approximated pattern can start with c -> ANALYSIS-ERROR, not a violation.
 R01b  wiring of LXR reporting (def-use on the source):
       (1) every ``return`` of ``PyLexer.lex`` returns ``(S, V)`` with V derived from
           ``violations_from_segments(S)`` for the same S;
@@ -37,7 +39,7 @@ import ast
 import re
 from typing import Dict, List, Optional, Tuple
 
-from ..cfg import Branch, cfg_of, origins
+from ..cfg import Branch, atoms, cfg_of, origins
 from ..grammar import load_grammar
 from ..index import AnalysisError, FuncNode, call_name, calls_in, const, kwarg, last_attr, norm, short, walk_local
 from ..rx_lex import EMPTY, CharSet, PatternInfo, analyse, analyse_literal, char_name
@@ -176,7 +178,7 @@ def r01a(chk, repo, g, lr) -> None:
             chk.count("R01a.matchers")
             pi = matcher_info(m, lr["flags"] if lr["kind"] == "RegexLexer" else re.DOTALL)
             infos.append((m, pi))
-            if pi.status == "unknown":
+            if pi.status != "ok":
                 unknown_patterns.add(m.get("template"))
         covered = EMPTY
         for m, pi in infos:
@@ -212,7 +214,7 @@ def r01a(chk, repo, g, lr) -> None:
         construct = f"{d.module}::{d.object_name}"
         chars = unc.sample(MAX_CHARS_REPORTED)
         for c in chars:
-            maybe = [m for m, pi in infos if pi.status == "unknown" or (pi.status == "ok" and not pi.exact and c in pi.first)]
+            maybe = [m for m, pi in infos if pi.status == "unknown" or (pi.status in ("ok", "approx") and not pi.exact and c in pi.first)]
             if maybe:
                 undecided.append((label, c, [m["name"] for m in maybe]))
                 continue
@@ -306,48 +308,12 @@ def r01b(chk, repo, lr) -> None:
     chk.require(len(creates) >= 1, "R01b", vf, "violations_from_segments creates no SQLLexError", detail="creates SQLLexError")
     type_tests = []
     for c in creates:
-        st = vcfg.stmt_of(c)
-        # appended to a list ...
-        app = None
-        p = getattr(c, "_parent", None)
-        if isinstance(p, ast.Call) and last_attr(p) == "append" and isinstance(p.func, ast.Attribute) and isinstance(p.func.value, ast.Name):
-            app = p
-        # ... inside a loop over the parameter
-        loop = st
-        while loop is not None and not isinstance(loop, (ast.For,)):
-            loop = getattr(loop, "_parent", None)
-        loop_ok = False
-        var = None
-        if isinstance(loop, ast.For) and isinstance(loop.target, ast.Name):
-            var = loop.target.id
-            it = loop.iter
-            io = origins(vcfg, it, loop) if isinstance(it, ast.Name) else []
-            loop_ok = bool(io) and all(o.kind == "param" for o in io) and isinstance(it, ast.Name) and it.id in params
-        chk.require(loop_ok, "R01b", c, "violations_from_segments: the SQLLexError is not created in a loop over the (unfiltered) segments parameter", detail="loop over the segments parameter")
-        conds = vcfg.conditions(st)
-        tests = [(e, pol) for e, pol in conds]
-        good = (
-            len(tests) == 1 and tests[0][1] is True and isinstance(tests[0][0], ast.Call) and last_attr(tests[0][0]) == "is_type"
-            and isinstance(tests[0][0].func, ast.Attribute) and isinstance(tests[0][0].func.value, ast.Name) and tests[0][0].func.value.id == var
-            and tests[0][0].args and all(isinstance(const(a), str) for a in tests[0][0].args)
-        )
+        ok, why, tts = _error_site(vf, vcfg, params, c)
+        type_tests += tts
         chk.require(
-            good, "R01b", c,
-            "violations_from_segments: the error is created under a condition other than the single test segment.is_type(<unlexable type>): "
-            + (" and ".join(("" if pol else "not ") + short(e, 60) for e, pol in tests) or "<unconditional>"),
-            detail="one SQLLexError per segment whose only test is is_type(T)",
+            ok, "R01b", c, f"violations_from_segments: {why}; some unlexable tokens would not be reported as LXR",
+            detail="one SQLLexError per segment of the parameter, skipped only when not is_type(T), collected in the returned list",
         )
-        if good:
-            type_tests.append([const(a) for a in tests[0][0].args])
-        # returned list is the list appended to
-        ret_ok = False
-        if app is not None:
-            lst = app.func.value.id
-            for r in _tuple_returns(vf):
-                if isinstance(r.value, ast.Name) and r.value.id == lst:
-                    ro = origins(vcfg, r.value, r)
-                    ret_ok = all(o.kind == "expr" and isinstance(o.expr, (ast.List, ast.Call)) for o in ro)
-        chk.require(ret_ok, "R01b", c, "violations_from_segments: the created error is not appended to the list that is returned", detail="error appended to the returned list")
 
     # (3) type agreement ------------------------------------------------------------------
     t = lr["segment_type"]
@@ -428,22 +394,21 @@ def r01b(chk, repo, lr) -> None:
                 if isinstance(ve, ast.Name):
                     adders = []
                     for st in lcfg.nodes:
-                        if isinstance(st, ast.AugAssign) and isinstance(st.op, ast.Add) and isinstance(st.target, ast.Name) and st.target.id == ve.id and isinstance(st.value, ast.Name) and st.value.id == err_name:
-                            adders.append(st)
-                        elif isinstance(st, ast.Expr) and isinstance(st.value, ast.Call) and last_attr(st.value) == "extend" and isinstance(st.value.func, ast.Attribute) and norm(st.value.func.value) == ve.id and len(st.value.args) == 1 and norm(st.value.args[0]) == err_name:
-                            adders.append(st)
+                        src = None
+                        if isinstance(st, ast.AugAssign) and isinstance(st.op, ast.Add) and isinstance(st.target, ast.Name) and st.target.id == ve.id:
+                            src = st.value
+                        elif isinstance(st, ast.Expr) and isinstance(st.value, ast.Call) and last_attr(st.value) == "extend" and isinstance(st.value.func, ast.Attribute) and norm(st.value.func.value) == ve.id and len(st.value.args) == 1:
+                            src = st.value.args[0]
+                        if isinstance(src, ast.Name):
+                            so = origins(lcfg, src, st)
+                            if so and all(o.kind == "expr" and o.expr is lc and o.path == (1,) for o in so):
+                                adders.append(st)
                     direct = ve.id == err_name
                     if direct:
                         ok = all(o.kind == "expr" and o.expr is lc for o in origins(lcfg, ve, r))
                     elif adders:
                         # must-pass: no path from the lex statement to this return avoids every adder
                         ok = not lcfg.paths_avoiding(lst, r, lambda n: any(n is a for a in adders))
-                        # the added name is still the unpacked one at the adder
-                        for a in adders:
-                            src = a.value if isinstance(a, ast.AugAssign) else a.value.args[0]
-                            if not all(o.kind == "expr" and o.expr is lc and o.path == (1,) for o in origins(lcfg, src, a)):
-                                ok = False
-                                why = "the name added to the error list is re-bound between lexer.lex and the addition"
                     # nothing else may rebind or shrink the list
                     if ok:
                         for o in origins(lcfg, ve, r):
@@ -469,6 +434,104 @@ def r01b(chk, repo, lr) -> None:
             # token filter: only meta segments may be skipped
             if isinstance(r.value, ast.Tuple) and len(r.value.elts) == 2 and isinstance(r.value.elts[0], ast.Name):
                 _token_filter(chk, lf, lcfg, r, r.value.elts[0], seg_name, lc)
+
+
+def _loop_entry(cfg, loop):
+    for n in cfg.succ.get(loop, ()):
+        if isinstance(n, Branch) and n.stmt is loop and n.polarity:
+            return n
+    return None
+
+
+def _skips_only_through(cfg, loop, keep_stmt, allowed) -> bool:
+    """Every path from the start of an iteration back to the loop head that avoids
+    ``keep_stmt`` passes a Branch accepted by ``allowed``."""
+    start = _loop_entry(cfg, loop)
+    if start is None:
+        return False
+    return not cfg.paths_avoiding(start, loop, lambda n: n is keep_stmt or (isinstance(n, Branch) and allowed(n)))
+
+
+def _is_type_call(e, var):
+    return (
+        isinstance(e, ast.Call) and last_attr(e) == "is_type" and isinstance(e.func, ast.Attribute)
+        and isinstance(e.func.value, ast.Name) and e.func.value.id == var and e.args
+        and all(isinstance(const(a), str) for a in e.args)
+    )
+
+
+def _error_site(vf, vcfg, params, c):
+    """(ok, why, [type lists]) for one ``SQLLexError(...)`` creation site.
+
+    Accepted idioms: (a) ``for s in <param>: if s.is_type(T): <list>.append(SQLLexError(..))``
+    with any spelling of the test (early ``continue``, nested ifs) as long as an iteration can
+    only finish without the append when ``s.is_type(T)`` was false, and ``<list>`` is returned;
+    (b) ``return [SQLLexError(..) for s in <param> if s.is_type(T)]`` (or assigned and returned).
+    """
+    tts = []
+    # (b) comprehension
+    comp = None
+    for p in _ancestors(c):
+        if isinstance(p, (ast.ListComp, ast.GeneratorExp)):
+            comp = p
+            break
+        if isinstance(p, ast.stmt):
+            break
+    if comp is not None:
+        if len(comp.generators) != 1 or comp.elt is not c:
+            return False, "the comprehension creating the errors is not a single loop over the segments", tts
+        gen = comp.generators[0]
+        if not (isinstance(gen.target, ast.Name) and isinstance(gen.iter, ast.Name) and gen.iter.id in params):
+            return False, "the errors are not created from the (unfiltered) segments parameter", tts
+        var = gen.target.id
+        for t in gen.ifs:
+            if not _is_type_call(t, var):
+                return False, f"segments are filtered by {short(t, 60)!r}, not only by is_type(<unlexable type>)", tts
+            tts.append([const(a) for a in t.args])
+        st = vcfg.stmt_of(comp)
+        if isinstance(st, ast.Return) and st.value is comp:
+            return True, "", tts
+        if isinstance(st, (ast.Assign, ast.AnnAssign)) and st.value is comp:
+            for r in _tuple_returns(vf):
+                if isinstance(r.value, ast.Name) and all(o.kind == "expr" and o.expr is comp for o in origins(vcfg, r.value, r)):
+                    return True, "", tts
+        return False, "the list of created errors is not what the function returns", tts
+    # (a) loop with append
+    st = vcfg.stmt_of(c)
+    app = getattr(c, "_parent", None)
+    if not (isinstance(app, ast.Call) and last_attr(app) == "append" and isinstance(app.func, ast.Attribute) and isinstance(app.func.value, ast.Name) and app.args and app.args[0] is c):
+        return False, "the created error is not appended to a list", tts
+    loop = st
+    while loop is not None and not isinstance(loop, ast.For):
+        loop = getattr(loop, "_parent", None)
+    if not (isinstance(loop, ast.For) and isinstance(loop.target, ast.Name) and isinstance(loop.iter, ast.Name) and loop.iter.id in params):
+        return False, "the error is not created in a loop over the (unfiltered) segments parameter", tts
+    io = origins(vcfg, loop.iter, loop)
+    if not (io and all(o.kind == "param" for o in io)):
+        return False, "the loop iterates over a re-bound (possibly filtered) value, not the segments parameter", tts
+    var = loop.target.id
+
+    def not_that_type(br):
+        return isinstance(br.stmt, (ast.If, ast.While)) and any((not pol) and _is_type_call(e, var) for e, pol in atoms(br.stmt.test, br.polarity))
+
+    for gd in vcfg.guards(st):
+        if isinstance(gd.stmt, (ast.If, ast.While)):
+            for e, pol in atoms(gd.stmt.test, gd.polarity):
+                if pol and _is_type_call(e, var):
+                    tts.append([const(a) for a in e.args])
+    if not _skips_only_through(vcfg, loop, st, not_that_type):
+        conds = " and ".join(("" if pol else "not ") + short(e, 60) for e, pol in vcfg.conditions(st) if not (isinstance(e, ast.Constant) and e.value is True))
+        return False, f"a segment can be passed over although {var}.is_type(<unlexable type>) holds (error created under: {conds or 'unconditional'})", tts
+    for n in walk_local(loop):
+        if isinstance(n, (ast.Break, ast.Return, ast.Raise)) and not any(not_that_type(gd) for gd in vcfg.guards(n)):
+            return False, f"the loop over the segments is left early at line {n.lineno}", tts
+    lst = app.func.value.id
+    for r in _tuple_returns(vf):
+        if isinstance(r.value, ast.Name) and r.value.id == lst:
+            ro = origins(vcfg, r.value, r)
+            if ro and all(o.kind == "expr" and isinstance(o.expr, ast.List) for o in ro):
+                return True, "", tts
+    return False, "the list the errors are appended to is not what the function returns", tts
 
 
 def _token_filter(chk, lf, lcfg, ret, tok_expr: ast.Name, seg_name: str, lex_call) -> None:
@@ -499,18 +562,21 @@ def _token_filter(chk, lf, lcfg, ret, tok_expr: ast.Name, seg_name: str, lex_cal
         if not (len(ap.args) == 1 and isinstance(ap.args[0], ast.Name) and ap.args[0].id == var):
             ok, why = False, "something other than the lexed segment is appended"
             break
-        # the append itself must be unconditional inside the loop ...
-        inner = [(e, pol) for e, pol in lcfg.conditions(st) if any(p is loop for p in _ancestors(e))]
-        if inner:
-            ok, why = False, "a token is only kept under the condition " + " and ".join(("" if pol else "not ") + short(e, 50) for e, pol in inner)
+        # every way of finishing an iteration without the append must have passed a test that
+        # is only true for meta segments (`<segment>.is_meta`): the template-indent filter
+        def meta_only(br, var=var):
+            return isinstance(br.stmt, (ast.If, ast.While)) and any(
+                pol and isinstance(e, ast.Attribute) and e.attr == "is_meta" and isinstance(e.value, ast.Name) and e.value.id == var
+                for e, pol in atoms(br.stmt.test, br.polarity)
+            )
+
+        if not _skips_only_through(lcfg, loop, st, meta_only):
+            ok, why = False, f"a lexed token can be left out of the returned list without the test {var}.is_meta being true (only template-indent metas may be filtered)"
             break
-        # ... and every jump that skips it must be guarded by `<segment>.is_meta`
         for n in walk_local(loop):
-            if isinstance(n, (ast.Continue, ast.Break, ast.Return, ast.Raise)):
-                conds = lcfg.conditions(n)
-                meta = any(pol and isinstance(e, ast.Attribute) and e.attr == "is_meta" and isinstance(e.value, ast.Name) and e.value.id == var for e, pol in conds)
-                if not meta:
-                    ok, why = False, f"a lexed token is skipped at line {n.lineno} without the test {var}.is_meta (only template-indent metas may be filtered)"
+            if isinstance(n, (ast.Break, ast.Return, ast.Raise)):
+                if not any(meta_only(gd) for gd in lcfg.guards(n)):
+                    ok, why = False, f"the filter loop is left at line {n.lineno} without the test {var}.is_meta"
                     break
         if not ok:
             break
